@@ -3038,19 +3038,14 @@ impl<'a, R: FileManager> FrontendCtx<'a, R> {
         })? {
             return Ok(Runtype::never());
         }
-        let (head, tail) = semtype_to_runtypes(
-            ctx,
-            &access_st,
-            // TODO: do we need this?
-            &RuntypeUUID {
-                ty: RuntypeName::Address(TypeAddress {
-                    file: anchor.f.clone(),
-                    name: "AnyName".into(),
-                }),
-                type_arguments: vec![],
-            },
-            &mut self.counter,
-        )
+        // the computed type may refer to itself: give it a name of its own, defined below with the
+        // other helper types when it is referenced
+        self.counter += 1;
+        let root_name = RuntypeUUID {
+            ty: RuntypeName::SemtypeRecursiveGenerated(self.counter),
+            type_arguments: vec![],
+        };
+        let (head, tail) = semtype_to_runtypes(ctx, &access_st, &root_name, &mut self.counter)
         .map_err(|any| {
             self.box_error(anchor, DiagnosticInfoMessage::AnyhowError(any.to_string()))
         })?;
